@@ -72,7 +72,9 @@ MkK(tag, atoms, bonds, angles, id0, grp, fl, cell) ==
    bond |-> IF bonds = <<>> THEN NoT
             ELSE [ix |-> bonds, ty |-> [n \in 1..Len(bonds) |-> (n - 1) % 2], co |-> Coeffs(tag, "b", 3, fl),   \* type 2 declared, unused
                   xf |-> [n \in 1..Len(bonds) |-> <<>>], xl |-> <<>>],
-   angle |-> IF angles = <<>> THEN NoT
+   \* a parameterised structure without angles still carries its angle coefficient table (a kind of term that is empty,
+   \* e.g. emptied by an earlier replacement, while its table is not)
+   angle |-> IF angles = <<>> THEN (IF tag = "S" /\ fl = "p" THEN [NoT EXCEPT !.co = Coeffs(tag, "n", 2, fl)] ELSE NoT)
              ELSE [ix |-> angles, ty |-> [n \in 1..Len(angles) |-> 0], co |-> Coeffs(tag, "n", 2, fl),   \* type 1 declared, unused
                    xf |-> [n \in 1..Len(angles) |-> <<>>], xl |-> <<>>],
    dihedral |-> NoT, improper |-> NoT, cell |-> cell, wf |-> "ok"]
